@@ -223,6 +223,11 @@ def _mark(frames):
 
 
 def ser(f) -> bytes:
+    lf = f.get("len_form")
+    n = f.get("declared_len")
+    n = len(f["payload"]) if n is None else n
+    if lf == 16 and n > 65535:
+        f = dict(f, len_form=None)  # two mutations met on one frame: the 16-bit form cannot hold it
     return R.build_frame(f["op"], f["payload"], fin=f["fin"], rsv1=f["rsv1"], rsv2=f.get("rsv2", False),
                          rsv3=f.get("rsv3", False), mask=f["mask"], len_form=f.get("len_form"),
                          declared_len=f.get("declared_len"))
